@@ -534,3 +534,37 @@ def duplication_condition_global_lost(job: dict, cres: dict, v: dict) -> bool:
     if res.get("rejected") or "harness_error" in res:
         return False
     return not any(x.get("culprit") == "duplication" for c in res["configs"] for x in c["violations"])
+
+
+@matcher("aggregate_equality_of_globals")
+def aggregate_equality_of_globals(job: dict, cres: dict, v: dict) -> bool:
+    """a rule removed by the culprit stage has an aggregate element whose condition compares (V1 = V2, not V1 != V2)
+    two variables that are BOTH global in the rule, and that comparison is gone from the statements the stage added"""
+    from clingo.ast import ASTType, ComparisonOperator, Sign
+
+    from ngo.utils.ast import global_vars_inside_body
+
+    from vt.common import parse
+
+    removed, added = removed_added(v)
+    try:
+        before = [s for s in parse("\n".join(removed)) if s.ast_type in (ASTType.Rule, ASTType.Minimize)]
+    except Exception:  # pylint: disable=broad-except
+        return False
+    for rule in before:
+        glob = {x.name for x in global_vars_inside_body(list(rule.body))}
+        for lit in rule.body:
+            if lit.ast_type != ASTType.Literal or lit.atom.ast_type != ASTType.BodyAggregate:
+                continue
+            for elem in lit.atom.elements:
+                for c in elem.condition:
+                    if c.ast_type != ASTType.Literal or c.atom.ast_type != ASTType.Comparison or len(c.atom.guards) != 1:
+                        continue
+                    g = c.atom.guards[0]
+                    eq = (c.sign == Sign.NoSign and g.comparison == ComparisonOperator.Equal) or (
+                        c.sign == Sign.Negation and g.comparison == ComparisonOperator.NotEqual)
+                    if (eq and c.atom.term.ast_type == ASTType.Variable and g.term.ast_type == ASTType.Variable
+                            and {c.atom.term.name, g.term.name} <= glob and c.atom.term.name != g.term.name
+                            and str(c) not in "\n".join(added)):
+                        return True
+    return False
